@@ -221,19 +221,24 @@ impl Peer {
         metainfo: &Metainfo,
     ) -> PieceCmd {
         match chosen_index {
-            Some(chosen_index) => {
-                pieces_status[chosen_index] = match pieces_status[chosen_index] {
-                    Status::Reserved(peers_count) => Status::Reserved(peers_count + 1),
-                    Status::Missing => Status::Reserved(1),
-                    Status::Have => Status::Have,
-                };
-
-                self.piece_index = Some(chosen_index);
-                match self.choked {
-                    true => PieceCmd::Ignore,
-                    false => PieceCmd::SendRequest(req_data(&metainfo, chosen_index)),
+            Some(chosen_index) => match self.choked {
+                // Nothing can be requested from a choking peer, so nothing is reserved for it:
+                // a piece is chosen again when it unchokes us
+                true => {
+                    self.piece_index = None;
+                    PieceCmd::Ignore
                 }
-            }
+                false => {
+                    pieces_status[chosen_index] = match pieces_status[chosen_index] {
+                        Status::Reserved(peers_count) => Status::Reserved(peers_count + 1),
+                        Status::Missing => Status::Reserved(1),
+                        Status::Have => Status::Have,
+                    };
+
+                    self.piece_index = Some(chosen_index);
+                    PieceCmd::SendRequest(req_data(&metainfo, chosen_index))
+                }
+            },
             None => {
                 self.piece_index = None;
                 self.am_interested = false;
